@@ -157,6 +157,11 @@ func (in *interp) stmts(t *rapid.T, env map[string]any, list []*SX) any {
 				}
 				in.stmts(t, map[string]any{}, body)
 			})
+		case "panicv": // a panic whose value depends on what was drawn (monitors only)
+			in.signal(s)
+			n := atoi(s.List[1])
+			v := env[s.List[2].Atom]
+			callSite(n, func() { panic(fmt.Sprintf("pv%d_%v", n, v)) })
 		case "defer": // a deferred function of the user's code (monitors only: the model has no such statement)
 			body := s.List[1:]
 			defer func() { in.stmts(t, env, body) }()
